@@ -544,8 +544,79 @@ impl Machine {
                             };
                             return self.eval(&expanded, env);
                         }
+                        // the bundled derived forms, as the report defines them; `begin` is a body
+                        // of its own (the bundled rule is ((lambda () exp ...)))
+                        "begin" if v.len() >= 2 => {
+                            let mut lam = vec![Sx::Sym("lambda".into()), Sx::List(vec![])];
+                            lam.extend(v[1..].iter().cloned());
+                            return self.eval(&Sx::List(vec![Sx::List(lam)]), env);
+                        }
+                        "and" => {
+                            let mut last = RV::Bool(true);
+                            for t in &v[1..] {
+                                last = self.eval(t, env)?;
+                                if matches!(last, RV::Bool(false)) {
+                                    break;
+                                }
+                            }
+                            return Ok(last);
+                        }
+                        "or" => {
+                            let mut last = RV::Bool(false);
+                            for t in &v[1..] {
+                                last = self.eval(t, env)?;
+                                if !matches!(last, RV::Bool(false)) {
+                                    break;
+                                }
+                            }
+                            return Ok(last);
+                        }
+                        "when" | "unless" if v.len() >= 3 => {
+                            let t = self.eval(&v[1], env)?;
+                            let truthy = !matches!(t, RV::Bool(false));
+                            if truthy != (head == "when") {
+                                return Ok(RV::Unspec);
+                            }
+                            let mut b = vec![Sx::Sym("begin".into())];
+                            b.extend(v[2..].iter().cloned());
+                            return self.eval(&Sx::List(b), env);
+                        }
+                        "cond" if v.len() >= 2 => {
+                            for (i, clause) in v[1..].iter().enumerate() {
+                                let c = match clause {
+                                    Sx::List(c) if !c.is_empty() => c,
+                                    _ => return Err(RErr::Unsupported("cond clause shape".into())),
+                                };
+                                if c[0].as_sym() == Some("else") {
+                                    if i + 2 != v.len() || c.len() < 2 {
+                                        return Err(RErr::Unsupported("cond else shape".into()));
+                                    }
+                                    let mut b = vec![Sx::Sym("begin".into())];
+                                    b.extend(c[1..].iter().cloned());
+                                    return self.eval(&Sx::List(b), env);
+                                }
+                                let t = self.eval(&c[0], env)?;
+                                if matches!(t, RV::Bool(false)) {
+                                    continue;
+                                }
+                                if c.len() == 1 {
+                                    return Ok(t);
+                                }
+                                if c[1].as_sym() == Some("=>") {
+                                    if c.len() != 3 {
+                                        return Err(RErr::Unsupported("cond => shape".into()));
+                                    }
+                                    let f = self.eval(&c[2], env)?;
+                                    return self.apply(&f, vec![t]);
+                                }
+                                let mut b = vec![Sx::Sym("begin".into())];
+                                b.extend(c[1..].iter().cloned());
+                                return self.eval(&Sx::List(b), env);
+                            }
+                            return Ok(RV::Unspec);
+                        }
                         "import" | "define-library" | "define-syntax" | "begin" | "let" | "let*"
-                        | "cond" | "case" | "and" | "or" | "when" | "unless" => {
+                        | "cond" | "case" | "when" | "unless" => {
                             return Err(RErr::Unsupported(format!("{} in expression", head)))
                         }
                         _ => {}
